@@ -351,11 +351,118 @@ def json_recursion(ctx, with_budget=False):
                                 okg = True
             ctx.ob('RECGUARD-T', 'json/%s-tests-node-state' % gname, okg, short_loc(gb[0].span) if gb else None,
                    '%s compares the per-node traversal state: %s' % (gname, okg))
+        json_guard_semantics(ctx, f, kb, scope)
         fam = ser + [b for b in scope if fn_label(b).startswith('schema::safe::serialize::SerializeSchema::')]
         okb, whyb = has_depth_budget(f, fam)
         if with_budget:
           ctx.ob('RECGUARD-S', 'schema::safe::serialize::SerializeSchema::serialize', okb, short_loc(kb.span),
                  whyb if okb else 'JSON rendering recursion follows the schema graph with no depth budget (the visited table bounds it only by the number of nodes)')
+
+
+_CMP = {'Eq': lambda a, b: a == b, 'Ne': lambda a, b: a != b, 'Lt': lambda a, b: a < b, 'Le': lambda a, b: a <= b,
+        'Gt': lambda a, b: a > b, 'Ge': lambda a, b: a >= b}
+
+
+def _switch_edges(g, bb):
+    """(edge taken when the scrutinee is true, edge taken when it is false) of a bool switch"""
+    t = g.term(bb)
+    t0 = [x['bb'] for x in t['targets'] if x['v'] == 0]
+    if not t0:
+        return None
+    return t['otherwise'], t0[0]
+
+
+def json_guard_semantics(ctx, f, kb, scope):
+    """what the two guards of the JSON rendering decide, beyond *that* they look at the per-node table:
+    - no_cycle_guard errs when the node is met again with no new name written in between (prev == current included)
+    - should_write_as_ref separates the initial table value (never written) from every later generation
+    - every guard taken by an unnamed container is released once its children are rendered"""
+    def guard(name):
+        gb = [b for b in scope if fn_label(b) == 'schema::safe::serialize::SerializeSchema::' + name]
+        return gb[0] if gb else None
+    g = guard('no_cycle_guard')
+    ok, det = False, 'no_cycle_guard not found'
+    if g is not None:
+        det = 'no comparison of the previous and the current generation found'
+        for bb in sorted(g.live_blocks()):
+            if g.term(bb)['k'] != 'switch':
+                continue
+            cond = switch_condition(g, g.switch_info(bb))
+            neg = False
+            while cond[0] == 'not':
+                neg, cond = not neg, cond[1]
+            if cond[0] != 'cmp' or cond[1] not in _CMP:
+                continue
+            lo, ro = origin(g, cond[2]), origin(g, cond[3])
+            prev_l = any(strip_generics(cname(c)).endswith('Cell::replace') for c in lo.calls)
+            prev_r = any(strip_generics(cname(c)).endswith('Cell::replace') for c in ro.calls)
+            if prev_l == prev_r:
+                continue
+            edges = _switch_edges(g, bb)
+            if edges is None:
+                continue
+            # value of the condition when prev == current, and when prev < current (a name was written in between)
+            prev, cur = (1, 1)
+            eq_truth = _CMP[cond[1]](prev, cur) != neg
+            lt_truth = (_CMP[cond[1]](0, 1) if prev_l else _CMP[cond[1]](1, 0)) != neg
+            eq_edge = edges[0] if eq_truth else edges[1]
+            lt_edge = edges[0] if lt_truth else edges[1]
+            ok = all_paths_err(g, eq_edge) and not all_paths_err(g, lt_edge) and eq_edge != lt_edge
+            det = 'previous generation %s current: equal => Err: %s; smaller (a name was written since) => guard granted: %s' % (
+                cond[1], all_paths_err(g, eq_edge), not all_paths_err(g, lt_edge))
+    ctx.ob('RECGUARD-T', 'json/no_cycle_guard-errs-on-equal', ok, short_loc(g.span) if g else None, det)
+
+    g = guard('should_write_as_ref')
+    ok, det = False, 'should_write_as_ref not found'
+    if g is not None:
+        det = 'no comparison of the node state with a constant found'
+        sets = [bb for bb, t in g.calls() if strip_generics(cname(t)).endswith('Cell::set')]
+        for bb in sorted(g.live_blocks()):
+            if g.term(bb)['k'] != 'switch':
+                continue
+            cond = switch_condition(g, g.switch_info(bb))
+            neg = False
+            while cond[0] == 'not':
+                neg, cond = not neg, cond[1]
+            if cond[0] != 'cmp' or cond[1] not in _CMP:
+                continue
+            lo, ro = origin(g, cond[2]), origin(g, cond[3])
+            cl = [c for c in lo.consts() if isinstance(c, int) and not isinstance(c, bool)]
+            cr = [c for c in ro.consts() if isinstance(c, int) and not isinstance(c, bool)]
+            state_l = 'node_traversal_state' in lo.fields
+            state_r = 'node_traversal_state' in ro.fields
+            if state_l and len(cr) == 1 and not state_r:
+                ev = lambda v: _CMP[cond[1]](v, cr[0]) != neg
+            elif state_r and len(cl) == 1 and not state_l:
+                ev = lambda v: _CMP[cond[1]](cl[0], v) != neg
+            else:
+                continue
+            edges = _switch_edges(g, bb)
+            if edges is None:
+                continue
+            # 0 is the table's initial value (never written); generations start at 1
+            separates = ev(0) != ev(1) and ev(1) == ev(2) == ev(10 ** 6)
+            fresh_edge = edges[0] if ev(0) else edges[1]
+            marks = bool(sets) and all(g.dominates(fresh_edge, sb) for sb in sets)
+            ok = separates and marks
+            det = 'state %s constant separates 0 (never written) from every generation >= 1: %s; the never-written edge is the one that marks the node and bumps the counter: %s' % (cond[1], separates, marks)
+    ctx.ob('RECGUARD-T', 'json/should_write_as_ref-threshold', ok, short_loc(g.span) if g else None, det)
+
+    # release
+    gcalls = [(bb, t) for bb, t in kb.calls() if strip_generics(cname(t)).endswith('SerializeSchema::no_cycle_guard')]
+    rel = [bb for bb, t in kb.calls() if strip_generics(cname(t)).endswith('NoCycleGuard::release')]
+    rets = [bb for bb in kb.live_blocks() if kb.term(bb)['k'] == 'return']
+    n = 0
+    for gbb, gt in gcalls:
+        te = try_edges(kb, gbb)
+        if te is None:
+            continue
+        ends = [bb for bb, t in kb.calls() if (t.get('callee') or '').endswith(('SerializeMap::end', 'SerializeSeq::end', 'SerializeStruct::end')) and kb.dominates(te[0], bb)]
+        n += 1
+        okr = bool(ends) and all(must_pass(kb, kb.term(e)['target'], rets, rel) for e in ends)
+        ctx.ob('RECGUARD-T', 'json/guard-released#%d' % n, okr, short_loc(gt.get('span')),
+               'the guard taken here is released on every path from the end of the container\'s rendering to the return: %s' % okr)
+    ctx.floor('RECGUARD-T', 'json guards taken by unnamed containers', n, 3)
 
 
 _META = {}
